@@ -526,6 +526,81 @@ theorem callDiags_ok (p : String) (s : Schema) (r : Rule) (fn : String) (argc : 
       · exact allOK_one (by okd)
     · exact allOK_cons (by okd) (missingSelf_ok _ _)
 
+theorem operandDiags_ok (p : String) (s : Schema) (fuel : Nat) (r : Rule) (field : String) (t : TypeRef) :
+    AllOK p (operandDiags p s fuel r field t) := by
+  simp only [operandDiags]
+  split
+  · exact allOK_one (by okd)
+  · exact allOK_one (by okd)
+  · split
+    · exact allOK_nil _
+    · exact allOK_one (by okd)
+  · split
+    · exact allOK_nil _
+    · exact allOK_one (by okd)
+  · split
+    · exact allOK_nil _
+    · split
+      · exact allOK_one (by okd)
+      · exact allOK_one (by okd)
+  · exact allOK_nil _
+
+theorem dotDiags_ok (p : String) (s : Schema) (fuel : Nat) (e : Entity) (r : Rule) (a f : String) (ix : Bool) :
+    AllOK p (dotDiags p s fuel e r a f ix) := by
+  simp only [dotDiags]
+  split
+  · exact allOK_one (by okd)
+  · exact operandDiags_ok _ _ _ _ _ _
+
+theorem argsRun_ok (p : String) (diagsOf : CallArg → List Diag) (sees : CallArg → Bool) (h : ∀ a, AllOK p (diagsOf a)) :
+    ∀ args, AllOK p (argsRun diagsOf sees args).1
+  | [] => by simp [argsRun, allOK_nil]
+  | a :: as => by
+    simp only [argsRun]
+    split
+    · exact h a
+    · exact allOK_append (h a) (argsRun_ok p diagsOf sees h as)
+
+theorem argDiags_ok (p : String) (env : Env) (s : Schema) (fuel : Nat) (e : Entity) (r : Rule) (a : CallArg) :
+    AllOK p (argDiags p env s fuel e r a) := by
+  cases a with
+  | lit => exact allOK_nil _
+  | bare n =>
+    simp only [argDiags]
+    split
+    · exact allOK_nil _
+    · split
+      next ds hg => exact globalRef_ok _ _ _ _ _ _ hg
+      · exact allOK_one (by okd)
+  | selfAttr a =>
+    simp only [argDiags]
+    split
+    · exact allOK_nil _
+    · exact allOK_one (by okd)
+
+theorem algArgDiags_ok (p : String) (env : Env) (s : Schema) (f : Func) (r : Rule) (a : CallArg) :
+    AllOK p (algArgDiags p env s f r a) := by
+  cases a with
+  | bare n =>
+    simp only [algArgDiags]
+    split
+    · exact allOK_nil _
+    · split
+      next ds hg => exact globalRef_ok _ _ _ _ _ _ hg
+      · exact allOK_one (by okd)
+  | lit => exact allOK_nil _
+  | selfAttr a => exact allOK_nil _
+
+theorem callWithDiags_ok (p : String) (env : Env) (s : Schema) (fuel : Nat) (e : Entity) (r : Rule) (fn : String)
+    (args : List CallArg) : AllOK p (callWithDiags p env s fuel e r fn args) := by
+  simp only [callWithDiags]
+  split
+  · refine allOK_append (allOK_append (callDiags_ok _ _ _ _ _) (argsRun_ok p _ _ (argDiags_ok p env s fuel e r) args)) ?_
+    split
+    · exact allOK_nil _
+    · exact missingSelf_ok _ _
+  · exact callDiags_ok _ _ _ _ _
+
 theorem typeRuleDiags_ok (p : String) (s : Schema) : AllOK p (typeRuleDiags p s) := by
   apply allOK_flatMap; intro t _
   apply allOK_flatMap; intro r _
@@ -580,6 +655,8 @@ theorem entityPass5_ok (p : String) (env : Env) (s : Schema) (fuel : Nat) (e : E
         · exact allOK_cons (by okd) (missingSelf_ok _ _)
     | badGroup an => exact allOK_cons (by okd) (allOK_one (by okd))
     | smallReal _ => exact allOK_nil _
+    | dot a f ix => exact dotDiags_ok _ _ _ _ _ _ _ _
+    | callWith fn args => exact callWithDiags_ok _ _ _ _ _ _ _ _
 
 theorem algDiags_ok (p : String) (env : Env) (s : Schema) : AllOK p (algDiags p env s) := by
   apply allOK_flatMap; intro d _
@@ -599,6 +676,12 @@ theorem algDiags_ok (p : String) (env : Env) (s : Schema) : AllOK p (algDiags p 
       · split
         next ds hg => exact globalRef_ok _ _ _ _ _ _ hg
         · exact allOK_one (by okd)
+    | callWith fn args =>
+      simp only [algItemDiags]
+      split
+      · exact allOK_append (fun d hd => callDiags_ok p s { r with isWhere := false } fn args.length d hd)
+          (argsRun_ok p _ _ (algArgDiags_ok p env s f r) args)
+      · exact fun d hd => callDiags_ok p s { r with isWhere := false } fn args.length d hd
     | _ => exact allOK_nil _
   | _ => exact allOK_nil _
 
